@@ -1,6 +1,8 @@
 ------------------------------ MODULE MC_Arena ------------------------------
 EXTENDS Arena, Json
 
+CONSTANT Focus      \* action mix of the simulation ("general", "prep", "claim", "aligned", "realloc", "fail", "scope")
+
 \* ---- constants that a .cfg file cannot express --------------------------------------------------
 Bools == {TRUE, FALSE}
 \* base allocator flavours: zero-sized handle (32-byte header), pointer-sized handle (48), 64-byte handle aligned to 64 (128)
@@ -92,56 +94,69 @@ PrepFailSpec == Init /\ [][PrepFailNext]_vars
 \* step has one successor per action kind (the simulator then picks the kind uniformly), and a behaviour is printed
 \* exactly once, by the Finish step
 R(S) == RandomElement(S)
+\* Focus: which groups of actions a simulation draws from (the general mix uses all of them; the focused mixes raise the
+\* density of the situations one property is about).  G(g) guards every disjunct of SimStep.
+FocusGroups ==
+    CASE Focus = "prep"    -> {"alloc", "scope", "prep", "fail", "reset", "aligned"}
+      [] Focus = "claim"   -> {"alloc", "dealloc", "realloc", "scope", "claim", "fail", "prep"}
+      [] Focus = "aligned" -> {"alloc", "dealloc", "realloc", "scope", "aligned", "prep", "reset"}
+      [] Focus = "realloc" -> {"alloc", "dealloc", "realloc", "split", "scope", "trywith", "reset"}
+      [] Focus = "fail"    -> {"alloc", "realloc", "reserve", "scope", "prep", "fail", "huge", "trywith", "value", "reset"}
+      [] Focus = "scope"   -> {"alloc", "dealloc", "scope", "reset", "trywith", "composite", "reserve", "claim"}
+      [] OTHER             -> {"alloc", "dealloc", "realloc", "reserve", "scope", "reset", "huge", "claim", "aligned", "prep",
+                               "fail", "trywith", "value", "composite", "split"}
+G(g) == g \in FocusGroups
+
 SimStep ==
-    \/ Alloc(R(Layouts), R(Bools), FALSE)
-    \/ Alloc(R(Layouts), FALSE, FALSE)
-    \/ (LiveIds # {} /\ Dealloc(R(LiveIds), R(Wraps)))
-    \/ (LiveIds # {} /\ Dealloc(R(LiveIds), "none"))
+    \/ (G("alloc") /\ Alloc(R(Layouts), R(Bools), FALSE))
+    \/ (G("alloc") /\ Alloc(R(Layouts), FALSE, FALSE))
+    \/ (G("dealloc") /\ LiveIds # {} /\ Dealloc(R(LiveIds), R(Wraps)))
+    \/ (G("dealloc") /\ LiveIds # {} /\ Dealloc(R(LiveIds), "none"))
     \* (RandomElement is re-evaluated at every use of a LET definition: bind the drawn values with \E x \in {R(S)})
-    \/ (LiveIds # {} /\ \E id \in {R(LiveIds)} :
+    \/ (G("realloc") /\ LiveIds # {} /\ \E id \in {R(LiveIds)} :
             LET ls == {l \in Layouts : l.sz >= blocks[id].sz} IN ls # {} /\ \E l \in {R(ls)} : Grow(id, l, R(Bools), R(Wraps), FALSE))
-    \/ (LiveIds # {} /\ \E id \in {R(LiveIds)} :
+    \/ (G("realloc") /\ LiveIds # {} /\ \E id \in {R(LiveIds)} :
             LET ls == {l \in Layouts : l.sz <= blocks[id].sz} IN ls # {} /\ \E l \in {R(ls)} : Shrink(id, l, R(Wraps), FALSE))
-    \/ Reserve(R({1, 50, 600, 3000}), FALSE)
-    \/ EnterFrame(R({"scope", "guard"}))
-    \/ ExitScope(R({"return", "unwind"}))
-    \/ GuardReset
-    \/ TakeCheckpoint
-    \/ (cps # <<>> /\ ResetTo(R(1..Len(cps))))
-    \/ Reset
-    \/ ResetToStart
+    \/ (G("reserve") /\ Reserve(R({1, 50, 600, 3000}), FALSE))
+    \/ (G("scope") /\ EnterFrame(R({"scope", "guard"})))
+    \/ (G("scope") /\ ExitScope(R({"return", "unwind"})))
+    \/ (G("scope") /\ GuardReset)
+    \/ (G("scope") /\ TakeCheckpoint)
+    \/ (G("scope") /\ cps # <<>> /\ ResetTo(R(1..Len(cps))))
+    \/ (G("reset") /\ Reset)
+    \/ (G("reset") /\ ResetToStart)
     \/ (nops >= MaxOps - 3 /\ DropArena)
-    \/ AllocHuge(R({1, 8, 64}))
-    \/ (LiveIds # {} /\ Realloc(R(LiveIds), R({"none", "none", "wd", "ws"})))
-    \/ (last # 0 /\ last \in LiveIds /\ Realloc(last, "none"))
-    \/ EnterClaim
-    \/ ExitClaim(R({"return", "unwind"}))
-    \/ (ClaimLevels # {} /\ ClaimedOp(R(ClaimLevels), R({"alloc", "reserve", "stats", "claim"}), 0, R(Layouts)))
-    \/ (ClaimLevels # {} /\ LiveIds # {} /\ ClaimedOp(R(ClaimLevels), R({"grow", "dealloc", "shrink"}), R(LiveIds), R(Layouts)))
-    \/ EnterAligned(R({1, 2, 4, 8, 16}), R(Bools))
-    \/ ExitAligned(R({"return", "unwind"}))
-    \/ EnterBmws(R({2, 4, 8, 16}))
-    \/ WithSettings(R({1, 2, 4, 8, 16}), TRUE) \/ WithSettings(R({1, 2, 4, 8, 16}), cfg.ga)
-    \/ EnterPrep(R(SimElems), R(Bools), R({0, 0, 1, 5, 20}), FALSE)
-    \/ (CanFail /\ EnterPrep(R(SimElems), R(Bools), R({5, 20, 200}), TRUE))
-    \/ PrepPush(FALSE) \/ (InPrep /\ PrepPush(FALSE)) \/ (InPrep /\ PrepPush(FALSE))
-    \/ (CanFail /\ PrepPush(TRUE))
-    \/ PrepReserve(R({1, 3, 10, 40, 300}), FALSE)
-    \/ (CanFail /\ PrepReserve(R({10, 40, 300, 2000}), TRUE))
-    \/ PrepCommit
-    \/ PrepDrop(R({"return", "unwind"}))
-    \/ (\E tw \in {R(TwFams)} : AllocTryWith(tw, R(Bools), R(Bools), FALSE, FALSE))
-    \/ (\E tw \in {R(TwFams)} : AllocTryWith(tw, R(Bools), FALSE, TRUE, FALSE))
-    \/ (CanFail /\ \E tw \in {R(TwFams)} : AllocTryWith(tw, R(Bools), R(Bools), FALSE, TRUE))
-    \/ AllocValue(R(ValueFams), R({1, 3, 5, 40}), FALSE)
-    \/ (CanFail /\ AllocValue(R(ValueFams), R({5, 40, 700}), TRUE))
-    \/ (\E w \in {R(Workloads)} : ScopeTwice(w))
-    \/ (nops <= 4 /\ \E w \in {R(Workloads)} : ResetLoop(w, 6))
-    \/ (LiveIds # {} /\ \E id \in {R(LiveIds)} :
+    \/ (G("huge") /\ AllocHuge(R({1, 8, 64})))
+    \/ (G("realloc") /\ LiveIds # {} /\ Realloc(R(LiveIds), R({"none", "none", "wd", "ws"})))
+    \/ (G("realloc") /\ last # 0 /\ last \in LiveIds /\ Realloc(last, "none"))
+    \/ (G("claim") /\ EnterClaim)
+    \/ (G("claim") /\ ExitClaim(R({"return", "unwind"})))
+    \/ (G("claim") /\ ClaimLevels # {} /\ ClaimedOp(R(ClaimLevels), R({"alloc", "reserve", "stats", "claim"}), 0, R(Layouts)))
+    \/ (G("claim") /\ ClaimLevels # {} /\ LiveIds # {} /\ ClaimedOp(R(ClaimLevels), R({"grow", "dealloc", "shrink"}), R(LiveIds), R(Layouts)))
+    \/ (G("aligned") /\ EnterAligned(R({1, 2, 4, 8, 16}), R(Bools)))
+    \/ (G("aligned") /\ ExitAligned(R({"return", "unwind"})))
+    \/ (G("aligned") /\ EnterBmws(R({2, 4, 8, 16})))
+    \/ (G("aligned") /\ (WithSettings(R({1, 2, 4, 8, 16}), TRUE) \/ WithSettings(R({1, 2, 4, 8, 16}), cfg.ga)))
+    \/ (G("prep") /\ EnterPrep(R(SimElems), R(Bools), R({0, 0, 1, 5, 20}), FALSE))
+    \/ (G("prep") /\ CanFail /\ EnterPrep(R(SimElems), R(Bools), R({5, 20, 200}), TRUE))
+    \/ (G("prep") /\ (PrepPush(FALSE) \/ (InPrep /\ PrepPush(FALSE)) \/ (InPrep /\ PrepPush(FALSE))))
+    \/ (G("prep") /\ CanFail /\ PrepPush(TRUE))
+    \/ (G("prep") /\ PrepReserve(R({1, 3, 10, 40, 300}), FALSE))
+    \/ (G("prep") /\ CanFail /\ PrepReserve(R({10, 40, 300, 2000}), TRUE))
+    \/ (G("prep") /\ PrepCommit)
+    \/ (G("prep") /\ PrepDrop(R({"return", "unwind"})))
+    \/ (G("trywith") /\ \E tw \in {R(TwFams)} : AllocTryWith(tw, R(Bools), R(Bools), FALSE, FALSE))
+    \/ (G("trywith") /\ \E tw \in {R(TwFams)} : AllocTryWith(tw, R(Bools), FALSE, TRUE, FALSE))
+    \/ (G("trywith") /\ CanFail /\ \E tw \in {R(TwFams)} : AllocTryWith(tw, R(Bools), R(Bools), FALSE, TRUE))
+    \/ (G("value") /\ AllocValue(R(ValueFams), R({1, 3, 5, 40}), FALSE))
+    \/ (G("value") /\ CanFail /\ AllocValue(R(ValueFams), R({5, 40, 700}), TRUE))
+    \/ (G("composite") /\ \E w \in {R(Workloads)} : ScopeTwice(w))
+    \/ (G("composite") /\ nops <= 4 /\ \E w \in {R(Workloads)} : ResetLoop(w, 6))
+    \/ (G("split") /\ LiveIds # {} /\ \E id \in {R(LiveIds)} :
             LET ats == {a \in 1..(blocks[id].sz - 1) : a % blocks[id].al = 0} IN ats # {} /\ \E at \in {R(ats)} : Split(id, at))
-    \/ (CanFail /\ Alloc(R(Layouts), FALSE, TRUE))
-    \/ (CanFail /\ Reserve(R({600, 3000}), TRUE))
-    \/ (CanFail /\ LiveIds # {} /\ \E id \in {R(LiveIds)} :
+    \/ (G("fail") /\ CanFail /\ Alloc(R(Layouts), FALSE, TRUE))
+    \/ (G("fail") /\ CanFail /\ Reserve(R({600, 3000}), TRUE))
+    \/ (G("fail") /\ CanFail /\ LiveIds # {} /\ \E id \in {R(LiveIds)} :
             LET ls == {l \in Layouts : l.sz >= blocks[id].sz} IN ls # {} /\ \E l \in {R(ls)} : Grow(id, l, FALSE, "none", TRUE))
 
 Finish ==
